@@ -20,6 +20,9 @@ CHECKS = {
  "C04": dict(cat="model_checking", design="DESIGN.md section 5 C04",
    technique="TLA+ spec PerVisible.tla (denotational semantics Denote vs effective constraint Eff, Sound/Tight checked by TLC on the whole bounded algebra); every TLC-generated constraint series replayed through the real compiler on each constrainable type/position; recorded trace validated by TLC, known deviations as named TLA+ operators",
    text="TLC enumerates the bounded constraint algebra slice by slice (quick: all <=2-operand expressions over the 7-point endpoint alphabet x extension marker x 14 type/position targets, one serial constraint, open ends: 68 852 cases; thorough adds all 3-operand expressions and two serial constraints), proves Eff sound and tight against the set semantics on the model, and validates the annotations the compiler emitted along the delegate chain in three grades: never excludes a permitted value, extensible iff marker, equals Eff."),
+ "C15": dict(cat="model_checking", design="DESIGN.md section 5 C15",
+   technique="TLA+ spec Alphabet.tla (set semantics of FROM expressions over an atom abstraction of each string type's alphabet, set-algebra laws checked by TLC); every TLC-generated FROM expression replayed through the real compiler; recorded trace validated by TLC, known deviations as named TLA+ operators",
+   text="TLC enumerates every FROM expression of the bounded algebra (strings, ranges, inclusion of a constrained type; | ^ EXCEPT; quick <=2 operands) x string type (known-multiplier and not) x six ways of combining with SIZE x assignment/component (53 928 cases quick), checks the set laws on the model and validates the from(...) annotation the compiler emitted, expanded back to atoms: exact for EXCEPT-free expressions, between Allowed and Allowed-with-EXCEPT-ignored otherwise, inside the base alphabet, absent for non-known-multiplier types."),
 }
 
 NOT_BUILT = "check not built yet (DESIGN.md section 13 build order)"
